@@ -135,6 +135,9 @@ func (r *result) facts() *facts {
 		if len(rec.Dlv) > 0 {
 			f.anyTo[to] = append(f.anyTo[to], dlv{rec.Dlv[0], rec.T, rec})
 		}
+		if rec.Forged && rec.Notes == "trickle" && len(rec.Dlv) > 0 {
+			f.intactTo[to] = append(f.intactTo[to], dlv{rec.Dlv[0], rec.T, rec}) // valid packets, only not from the server
+		}
 		if rec.Forged {
 			continue
 		}
@@ -486,6 +489,8 @@ func judge(r *result, u *vf.Unit) *vf.Verdict {
 			if !ok {
 				return r.bad("C17/unblock/remote-close-time", "Dial returned at %v, CONNECTION_CLOSE deliveries to the client: %v", r.dialAt, ccTimes(f.ccTo["c"]))
 			}
+		case c.Cause == "hstimeout" && k == "idle" && r.trickled > 2 && r.dialAt < r.dialStart+2*hsIdle:
+			return r.bad("C17/idle/early", "Dial gave up with %v at %v although the client received a valid packet every %v (HandshakeIdleTimeout %v)", r.dialErr, r.dialAt, hsIdle/2, hsIdle)
 		case c.Cause == "hstimeout" && k == "idle":
 			if v := r.idleBounds(f, r.C, r.dialAt, r.dialStart, hsIdle, true); v != nil {
 				return v
@@ -642,8 +647,8 @@ func judge(r *result, u *vf.Unit) *vf.Verdict {
 			}
 			if d.t >= t0 && d.t < r.teardownAt() {
 				nHi++ // a datagram delivered in the very instant of the close may have arrived before or after it
-				if d.t > t0 && d.t <= t0+3*r.rtt {
-					nLo++
+				if d.t > t0 && d.t <= t0+3*r.rtt && !d.rec.Mutated {
+					nLo++ // (a truncated datagram may not even be attributable to the connection)
 				}
 			}
 		}
